@@ -78,8 +78,8 @@ def performMove (s : State) (mv : Move) : Option (Except MoveErr State) :=
     castleW := cw
     castleB := cb
     ep := if Move.isDoublePawn mv then offset d 0 us.backward else Option.none
-    halfmove := if Move.isCapture mv || p == .pawn then 0 else s.halfmove + 1
-    fullmove := if us == .black then s.fullmove + 1 else s.fullmove })
+    halfmove := if Move.isCapture mv || p == .pawn then 0 else clockSucc s.halfmove
+    fullmove := if us == .black then clockSucc s.fullmove else s.fullmove })
 
 end Wee
 
